@@ -33,8 +33,6 @@ namespace Ro.Share
 
 inductive SErr
   | user (n : Nat)
-  /-- `newObservableError(runtime error: nil pointer dereference)` — observable.go:313-316 -/
-  | nilDeref
 deriving DecidableEq, Repr, Inhabited
 
 /-- a notification as a downstream observer / the drop hook sees it (no context) -/
@@ -74,9 +72,6 @@ structure Cfg where
   flags : Flags
   /-- what the k-th upstream subscription plays synchronously inside `Subscribe` -/
   pre : Nat → List Ev
-  /-- `true`: the tree with repo_fixes/C11-share-local-sourceSubscription.patch applied
-      (operator_connectable.go:160 uses the local `currentSourceSubscription`); `false`: the pinned tree -/
-  fixed : Bool := false
 
 inductive Status
   | open
@@ -146,8 +141,6 @@ structure St where
   nsubs : Nat := 0
   /-- `OnDroppedNotification`, in call order -/
   drops : List Ev := []
-  /-- ghost: nil dereferences of `sourceSubscription` so far -/
-  panics : Nat := 0
 
 instance : Inhabited St := ⟨{}⟩
 
@@ -381,20 +374,17 @@ def r1 (cfg : Cfg) (s : St) : St :=
 def ssAdd (g' g : Nat) (s : St) : St :=
   if (s.gens g').ssDone then pUnsubscribe g s else s.modGen g' fun x => { x with ssFins := x.ssFins ++ [g] }
 
-/-- `sourceSubscription.AddUnsubscribable(…)` (operator_connectable.go:160): on the pinned tree the
-    *shared variable* is read again, without `mu`. `none` = nil dereference, recovered by
-    observable.go:313-317: `Error(observableError)` then `Unsubscribe`; Share's teardown is never
-    registered, so the reference count is not given back. On the repaired tree (`fixed`) the local
-    `currentSourceSubscription` (generation `g`, never nil) is used. -/
-def r3tail (fixed : Bool) (fl : Flags) (i g : Nat) (s : St) : St :=
-  if fixed then addTeardown fl i g (ssAdd g g s)
-  else match s.sourceSubscription with
-    | none => dUnsubscribe fl i (dTerm fl i (.error .nilDeref) { s with panics := s.panics + 1 })
-    | some g' => addTeardown fl i g (ssAdd g' g s)
+/-- `currentSourceSubscription.AddUnsubscribable(source.Subscribe(proxy))`
+    (operator_connectable.go:160-165): the *local* copy made under `mu` in R1 — generation `g`, never
+    nil; when a terminal has already reset the generation its `sourceSubscription` is done and the
+    proxy's `Unsubscribe` runs at once. Then observable.go:310 registers Share's teardown.
+    (Before fix a510ca9 the shared variable was re-read here without `mu`: nil dereference when a
+    terminal had reset it inside R3.) -/
+def r3tail (fl : Flags) (i g : Nat) (s : St) : St := addTeardown fl i g (ssAdd g g s)
 
-/-- region R3 for the subscriber that created the generation (operator_connectable.go:125-163) -/
+/-- region R3 for the subscriber that created the generation (operator_connectable.go:125-166) -/
 def r3 (cfg : Cfg) (i g : Nat) (s : St) : St :=
-  r3tail cfg.fixed cfg.flags i g (srcSubscribe cfg g { s with flagE := false, flagC := false })
+  r3tail cfg.flags i g (srcSubscribe cfg g { s with flagE := false, flagC := false })
 
 /-- `observableImpl.SubscribeWithContext` of the shared observable + the subscribe function of
     `ShareWithConfig` (operator_connectable.go:111-179): R1, R2 (subscribe to the subject), R3 -/
@@ -440,7 +430,7 @@ def srcSubscribeK (cfg : Cfg) (k : St → St) (g : Nat) (s : St) : St :=
   upAddTeardown g (k (playPre cfg g (cfg.pre s.total) (s.modGen g fun x => { x with upSub := true })))
 
 def r3K (cfg : Cfg) (k : St → St) (i g : Nat) (s : St) : St :=
-  r3tail cfg.fixed cfg.flags i g (srcSubscribeK cfg k g { s with flagE := false, flagC := false })
+  r3tail cfg.flags i g (srcSubscribeK cfg k g { s with flagE := false, flagC := false })
 
 def subscribeK (cfg : Cfg) (k : St → St) (s : St) : St :=
   if needsNew s then
